@@ -14,6 +14,7 @@ import (
 	"go/types"
 	"os"
 	"sort"
+	"strings"
 
 	"golang.org/x/tools/go/ssa"
 )
@@ -333,4 +334,160 @@ func scopeC04(p *Program) []*ssa.Function {
 		return p.ProdFuncs()
 	}
 	return p.FuncsInPkg("pkg/diff")
+}
+
+func init() {
+	register(&Rule{
+		ID: "C04-b", Template: "T10 agreement (the two passes of a diff are mirror images)",
+		Doc: "Removed rows are found the way added rows are: (*Differ).diffRows walks the tables twice through iterateAndMatch; the second call's arguments are the first call's with every pair of sides swapped — for each argument position i whose value differs between the two calls there is a position j of the same type with second[i] = first[j] and second[j] = first[i], at least the store, table and table-index pairs are swapped, and every other argument is the same value. A half-swapped second pass (the other store with this side's table index, say) looks rows up in the wrong table: removals are missed or invented.",
+		Min: 1,
+		Run: func(p *Program, r *RuleResult) error {
+			fn, err := p.SSAFunc("pkg/diff.(*Differ).diffRows")
+			if err != nil {
+				return err
+			}
+			iam, err := p.MustFuncs("pkg/diff.iterateAndMatch")
+			if err != nil {
+				return err
+			}
+			r.Analysed = 1
+			calls := callsTo(fn, iam)
+			key := funcName(fn) + "|mirror"
+			what := "the second pass is the first with the two sides swapped"
+			if len(calls) != 2 {
+				r.bad(key, p.Rel(fn.Pos()), what, fmt.Sprintf("diffRows makes %d calls of iterateAndMatch, not two", len(calls)))
+				return nil
+			}
+			a, b := calls[0].Common().Args, calls[1].Common().Args
+			if len(a) != len(b) {
+				r.bad(key, p.Rel(fn.Pos()), what, "the two calls differ in their number of arguments")
+				return nil
+			}
+			same := func(x, y ssa.Value) bool { return x == y || sameObject(x, y) || sameElem(x, y) }
+			swapped, bad := 0, ""
+			for i := range a {
+				if _, isFn := a[i].Type().Underlying().(*types.Signature); isFn {
+					continue // the two callbacks differ by design (C04-c)
+				}
+				if same(a[i], b[i]) {
+					continue
+				}
+				found := false
+				for j := range a {
+					if j != i && types.Identical(a[i].Type(), a[j].Type()) && same(b[i], a[j]) && same(b[j], a[i]) {
+						found = true
+					}
+				}
+				if found {
+					swapped++
+				} else {
+					bad = fmt.Sprintf("argument %d of the second call (%s) is neither the first call's value nor its partner's", i, p.Rel(calls[1].Pos()))
+				}
+			}
+			// the callee's own pairing: parameters named x1 / x2 of one type are the two sides of x
+			if callee := calls[1].Common().StaticCallee(); callee != nil && bad == "" {
+				byBase := map[string][]int{}
+				for i, prm := range callee.Params {
+					name := strings.TrimRight(prm.Name(), "0123456789")
+					if name != prm.Name() && i < len(a) {
+						byBase[name+"|"+prm.Type().String()] = append(byBase[name+"|"+prm.Type().String()], i)
+					}
+				}
+				var bases []string
+				for k := range byBase {
+					bases = append(bases, k)
+				}
+				sort.Strings(bases)
+				for _, k := range bases {
+					ij := byBase[k]
+					if len(ij) != 2 {
+						continue
+					}
+					i, j := ij[0], ij[1]
+					if !(same(b[i], a[j]) && same(b[j], a[i])) || same(a[i], a[j]) {
+						bad = fmt.Sprintf("the %s pair (arguments %d and %d) is not swapped in the second pass", strings.SplitN(k, "|", 2)[0], i, j)
+					}
+				}
+			}
+			switch {
+			case bad != "":
+				r.bad(key, p.Rel(calls[1].Pos()), what, bad)
+			case swapped < 2:
+				r.bad(key, p.Rel(calls[1].Pos()), what, "the second pass does not swap the two sides")
+			default:
+				r.okWhy(key, p.Rel(calls[1].Pos()), what, fmt.Sprintf("%d argument positions swapped pairwise, the rest identical", swapped))
+			}
+			return nil
+		},
+	})
+
+	register(&Rule{
+		ID: "C04-c", Template: "T4 permit-cut (the second pass reports only what the first could not see)",
+		Doc: "No key is reported twice: the callback that diffRows hands to the second (swapped) pass sends a diff event only through the 'no matching row on the other side' edge (row2 == nil) — rows present on both sides were already reported, as modified or unchanged, by the first pass. Without the test every modified row appears once as modified and once as removed.",
+		Min: 1,
+		Run: func(p *Program, r *RuleResult) error {
+			fn, err := p.SSAFunc("pkg/diff.(*Differ).diffRows")
+			if err != nil {
+				return err
+			}
+			iam, err := p.MustFuncs("pkg/diff.iterateAndMatch")
+			if err != nil {
+				return err
+			}
+			r.Analysed = 1
+			calls := callsTo(fn, iam)
+			if len(calls) != 2 {
+				return &AnchorError{"the two iterateAndMatch passes of diffRows"}
+			}
+			args := calls[1].Common().Args
+			var cb *ssa.Function
+			switch x := args[len(args)-1].(type) {
+			case *ssa.MakeClosure:
+				cb, _ = x.Fn.(*ssa.Function)
+			case *ssa.Function:
+				cb = x
+			}
+			key := funcName(fn) + "|second-pass-callback"
+			what := "the second pass reports a row only when the other side has none"
+			if cb == nil || len(cb.Params) < 3 {
+				r.bad(key, p.Rel(calls[1].Pos()), what, "the callback of the second pass cannot be identified")
+				return nil
+			}
+			// the "other side's row" parameter: third parameter (pk, row1, row2, …)
+			other := cb.Params[2]
+			var permits []edge
+			for _, b := range cb.Blocks {
+				if len(b.Instrs) == 0 {
+					continue
+				}
+				if ifi, ok := b.Instrs[len(b.Instrs)-1].(*ssa.If); ok {
+					if s, ok := nilTestEdge(ifi, map[ssa.Value]bool{other: true}); ok {
+						permits = append(permits, edge{b, s})
+					}
+				}
+			}
+			n, bad := 0, ""
+			for _, b := range cb.Blocks {
+				for _, in := range b.Instrs {
+					snd, ok := in.(*ssa.Send)
+					if !ok {
+						continue
+					}
+					n++
+					if path, reach := reachAfter(cb, nil, snd, mkCut(permits), nil); reach {
+						bad = fmtPath("a diff event is sent from the second pass without the other side's row having been found nil", path)
+					}
+				}
+			}
+			switch {
+			case bad != "":
+				r.bad(key, p.Rel(cb.Pos()), what, bad)
+			case n == 0:
+				r.bad(key, p.Rel(cb.Pos()), what, "the second pass never reports anything (removed rows are lost)")
+			default:
+				r.ok(key, p.Rel(cb.Pos()), what)
+			}
+			return nil
+		},
+	})
 }
